@@ -37,6 +37,11 @@ CLAIMED = {
   note="Does not decide raft itself, leader failover or convergence timing. Frozen exceptions: Data.adminUserExists is derived; retryUntilExec returns nil while the client is closing.",
   technique="static analysis: type-graph walk with per-field obligations, nil-fact dataflow, marshal/unmarshal field agreement",
   ref="§4 C07"),
+ "C15": dict(
+  text="Structural clauses of inter-node protocol robustness and fidelity: every use of a length decoded from the wire (allocation size, slice bound, index) is guarded on every path (sign and upper bound; frame reader bounded by MaxMessageSize); request-type registry = dispatch cases; a request that fails to decode never reaches the store, an undecodable point makes the write request fail; marshal/unmarshal field agreement for every message struct, the five point codecs and the aux codec; no unchecked type assertion on decoded data; every 'unhandled case' panic reachable from the connection handler (CHA closure, ~4700 functions) is either in a type switch that misses no member of the value-type family or in a frozen, guard-checked row; failed exchanges poison pooled connections.",
+  note="Does not decide panics inside protobuf/snappy, semantic equality of decoded expressions, or allocation on the client side of a stream beyond the uint32 frame length. CHA call graph over the loaded packages; reflection not followed.",
+  technique="static analysis: wire-length guard dataflow with decomposed branch conditions, registry/case-set agreement, codec field agreement, call-graph closure panic classification",
+  ref="§4 C15"),
 }
 
 NA = {
